@@ -58,6 +58,27 @@ def structured_state(init, leaves, depth=0):
 
 
 def decompose(n, s):
+    """n as a case chain over s; every update is simplified under its own gate."""
+    out = []
+    for g, u in _decompose(n, s):
+        sub = {}
+        for c in (g.a if g.op == "and" else (g,)):
+            if c.op == "not":
+                sub[c.a[0]] = tm.FALSE
+            elif c is not tm.TRUE:
+                sub[c] = tm.TRUE
+                if c.op == "isvar":
+                    d = tm.ADT_NAMES.get(c.a[1])
+                    if d:
+                        for w in d:
+                            if w != c.a[2]:
+                                sub[tm.isvar(c.a[0], c.a[1], w)] = tm.FALSE
+        u2 = tm.subst(u, sub) if sub else u
+        out.append((g, u2))
+    return out
+
+
+def _decompose(n, s):
     """n as a case chain over s: list of (gate, update) where update is not s; paths where
     n is s are omitted."""
     if n is s:
@@ -67,12 +88,12 @@ def decompose(n, s):
     if n.op == "ite":
         c, a, b = n.a
         out = []
-        for g, u in decompose(a, s):
+        for g, u in _decompose(a, s):
             gg = tm.and_(c, g)
             if gg is not tm.FALSE:
                 out.append((gg, u))
         nc = tm.not_(c)
-        for g, u in decompose(b, s):
+        for g, u in _decompose(b, s):
             gg = tm.and_(nc, g)
             if gg is not tm.FALSE:
                 out.append((gg, u))
